@@ -6846,7 +6846,11 @@ blockSize_explicitDelimiter(const ZSTD_Sequence* inSeqs, size_t inSeqsSize, ZSTD
     assert(spos <= inSeqsSize);
     while (spos < inSeqsSize) {
         end = (inSeqs[spos].offset == 0);
-        blockSize += inSeqs[spos].litLength + inSeqs[spos].matchLength;
+        {   U64 const seqLength = (U64)inSeqs[spos].litLength + inSeqs[spos].matchLength;   /* the sum of two 32-bit fields must not wrap */
+            RETURN_ERROR_IF(seqLength > ZSTD_BLOCKSIZE_MAX || blockSize + (size_t)seqLength > ZSTD_BLOCKSIZE_MAX,
+                            externalSequences_invalid, "sequences incorrectly define a too large block");
+            blockSize += (size_t)seqLength;
+        }
         if (end) {
             if (inSeqs[spos].matchLength != 0)
                 RETURN_ERROR(externalSequences_invalid, "delimiter format error : both matchlength and offset must be == 0");
